@@ -58,9 +58,19 @@ func vfOutranks(target string) map[string]bool {
 // accepts the header AND is documented to outrank the target: the "higher-priority signature"
 // exception. A node that merely happens to sit earlier in the live tree does not count.
 func vfEarlierSibling(path []*MIME, h []byte, limit uint32) string {
+	return vfEarlierSiblingOpt(path, h, limit, true)
+}
+
+// rootOK=false: the caller's generator never plants a binary signature, so a root-level format
+// that accepts the header is not an excuse.
+func vfEarlierSiblingOpt(path []*MIME, h []byte, limit uint32, rootOK bool) string {
 	allowed := vfOutranks(path[len(path)-1].mime)
 	parent := root
 	for _, want := range path {
+		if parent == root && !rootOK && want == text {
+			parent = want
+			continue
+		}
 		for _, c := range parent.children {
 			if c == want {
 				break
@@ -219,7 +229,7 @@ func c13FwdCheck(c c13Fwd) vfResult {
 	var r vfResult
 	r.LabelN = map[string]int64{}
 	r.Labels = append(r.Labels, "fwd-"+c.Kind)
-	if hp := vfEarlierSibling(path, doc, 0); hp != "" {
+	if hp := vfEarlierSiblingOpt(path, doc, 0, false); hp != "" {
 		return vfResult{Skip: "higher-priority-signature:" + hp}
 	}
 	var limits []uint32
@@ -250,7 +260,7 @@ func c13FwdCheck(c c13Fwd) vfResult {
 		}
 		h := vfHeader(doc, L)
 		if L != 0 && int(L) <= len(doc) {
-			if hp := vfEarlierSibling(path, h, L); hp != "" {
+			if hp := vfEarlierSiblingOpt(path, h, L, false); hp != "" {
 				r.LabelN["cut-exception:"+hp]++
 				continue
 			}
